@@ -20,7 +20,7 @@ LEVEL = "exploration"
 
 TRUE_COLD_EVERY = 10
 CONFIGS = ["shared-pandas", "separate-pandas", "polars-mixed", "polars-eager-only", "shared-polars", "mixed", "models-cold",
-           "shared-components"]
+           "shared-components", "shared-checks-cross-backend"]
 
 
 def plan(tier):
@@ -118,6 +118,20 @@ def gen_workload(rng, idx):
                          "unique": None, "add_missing_columns": False, "drop_invalid_rows": False})
         for i in range(n):
             add_call(g, i % 2, backend, pl_lazy=(False if backend == "polars" else None))
+    elif cfg == "shared-checks-cross-backend":
+        # a pandas schema and a polars schema holding the very same built-in Check objects (a user who keeps
+        # `positive = pa.Check.ge(0)` in one place and uses it for both libraries)
+        g, spec = _spec(rng, "pandas", kind="dfs", want_cb=0.0, deny=DENY + ("regex", "custom_dtype", "parsers", "groupby"))
+        subjects.append(spec)
+        cols = [dict(c, parsers=[], checks=[ch for ch in c["checks"] if ch["t"] == "builtin"], default=None)
+                for c in spec["columns"] if c["dtype"] in world.PL_DTYPES]
+        if not cols:
+            cols = [dict(spec["columns"][0], dtype="int64", parsers=[], checks=[], default=None)]
+        subjects.append({"backend": "polars", "kind": "dfs", "share_checks_of": 0, "columns": cols, "index": None, "checks": [], "parsers": [],
+                         "dtype": None, "coerce": False, "strict": False, "ordered": False, "unique": None, "add_missing_columns": False,
+                         "drop_invalid_rows": False, "name": "S2"})
+        for i in range(n):
+            add_call(g, i % 2, subjects[i % 2]["backend"], pl_lazy=(False if i % 2 else None))
     elif cfg == "models-cold":
         backend = rng.choice(["pandas", "polars"])
         g, spec = _spec(rng, backend, kind="model", force=("coerce",))
@@ -229,7 +243,16 @@ def _make_warm():
 def build_objects(wl):
     subs = []
     for s in wl["subjects"]:
-        if "share_columns_of" in s:
+        if "share_checks_of" in s:
+            base = subs[s["share_checks_of"]]
+            import pandera.polars as pap
+            cols = {}
+            for c in s["columns"]:
+                shared = [ch for ch in base.columns[c["name"]].checks if getattr(ch, "_verif_site", None) is None] if c["name"] in base.columns else []
+                cols[c["name"]] = pap.Column(world.PL_DTYPES[c["dtype"]], checks=shared or None, nullable=c["nullable"], unique=c["unique"],
+                                             coerce=c["coerce"], required=c["required"])
+            subs.append(pap.DataFrameSchema(cols, name=s["name"]))
+        elif "share_columns_of" in s:
             base = subs[s["share_columns_of"]]
             import pandera as pa
             import pandera.polars as pap
@@ -473,6 +496,8 @@ def workload_tags(wl):
         t.add("true-cold-process")
     if any("share_columns_of" in s for s in wl["subjects"]):
         t.add("shared-column-objects")
+    if any("share_checks_of" in s for s in wl["subjects"]):
+        t.add("shared-check-objects-across-backends")
     if any(s["kind"] == "model" for s in wl["subjects"]):
         t.add("model")
     return sorted(t)
